@@ -662,11 +662,16 @@ def checksum_carry_rule(ctx, repo):
     fi = repo.find_method(hr, "verify_checksum")
     ctx.saw_func(fi)
     # the length field is written with to_bytes(2): at most 65535 octets, one pad octet -> 32768 words
-    two = [n for n in ast.walk(fi.node) if isinstance(n, ast.Call) and isinstance(n.func, ast.Attribute) and n.func.attr == "to_bytes"
-           and "len(self)" in ast.unparse(n.func.value) and ((n.args and isinstance(n.args[0], ast.Constant) and n.args[0].value == 2)
-                                                            or any(k.arg == "length" and isinstance(k.value, ast.Constant) and k.value.value == 2 for k in n.keywords))]
+    # the length field is written with to_bytes(2) somewhere in the class: at most 65535 octets, one pad octet -> 32768 words
+    two = []
+    for m in hr.methods.values():
+        for n in ast.walk(m.node):
+            if isinstance(n, ast.Call) and isinstance(n.func, ast.Attribute) and n.func.attr == "to_bytes" and "len(self)" in ast.unparse(n.func.value) \
+                    and ((n.args and isinstance(n.args[0], ast.Constant) and n.args[0].value == 2)
+                         or any(k.arg == "length" and isinstance(k.value, ast.Constant) and k.value.value == 2 for k in n.keywords)):
+                two.append(n)
     if not two:
-        raise AnalysisError("HRNP.verify_checksum: the 2-octet length field (bound of the packet size) not found")
+        raise AnalysisError("HRNP: the 2-octet length field (bound of the packet size) not found")
     a = CarryAnalysis(fi, 32768, fold=lambda e: repo.fold_expr(e, fi.module, hr)).run()
     bad = [ev for ev in a.events if not ev[3]]
     for line, expr, iv, ok, why in a.events:
